@@ -24,7 +24,8 @@
 -/
 namespace Kopf.C12
 
-/-- `delays` as configured. A scalar is *not* iterable: `iter(delays)` raises TypeError. -/
+/-- `delays` as configured. A scalar is wrapped into a one-item list (`iter(delays if isinstance(delays,
+    Iterable) else [delays])`, since 3ebc040 — finding F8 fixed), as `api.request` does for the backoffs. -/
 inductive Delays where
   | scalar (d : Int)
   | seq (nth : Nat → Option Int)     -- finite list, tuple, or a RE-ITERABLE (possibly infinite) object;
@@ -32,6 +33,11 @@ inductive Delays where
   deriving Inhabited
 
 def Delays.ofList (l : List Int) : Delays := .seq (fun i => l[i]?)
+
+/-- the `i`-th item of `iter(...)` over the configuration -/
+def Delays.nth : Delays → Nat → Option Int
+  | .scalar d => fun i => [d][i]?
+  | .seq f => f
 
 structure Throttler where
   src : Option Nat            -- `source_of_delays`: None, or how many items were consumed from it
@@ -60,7 +66,7 @@ inductive Escaped where
   | none_            -- nothing left the context manager
   | exception        -- the block's Exception was re-raised
   | baseException    -- the BaseException went through
-  | typeError        -- `iter(delays)` on a scalar
+  | typeError        -- (unused since 3ebc040: `iter(delays)` on a scalar used to raise)
   deriving DecidableEq, Repr, Inhabited
 
 structure CycleOut where
@@ -107,22 +113,17 @@ def phase2 (cfg : Delays) (s1 : Throttler) (t1 : Int) (sl1 : Int) (i : CycleIn) 
     if !ofInterest then ⟨s1, shouldRun, .exception, none, sl1, 0, t2⟩
     else if !shouldRun then ⟨s1, shouldRun, .exception, none, sl1, 0, t2⟩
     else
-      match cfg with
-      | .scalar _ =>
-        -- `iter(5)` raises inside the handler before anything is assigned (a throttler that was
-        -- only ever driven with this configuration has `src = none`)
-        ⟨s1, shouldRun, .typeError, none, sl1, 0, t2⟩
-      | .seq nth =>
-        let nd := nextDelay nth (s1.src.getD 0) s1.last
-        match nd.1 with
-        | none =>
-          -- no delays at all: throttling is not activated, and there is no 2nd sleep
-          ⟨{ s1 with src := some nd.2 }, shouldRun, .none_, none, sl1, 0, t2⟩
-        | some d =>
-          let u := t2 + d
-          -- 2nd sleep (should_run is True here)
-          let r := aioSleep (u - t2) i.wake2
-          ⟨⟨some nd.2, some d, if r.2 then none else some u⟩, shouldRun, .none_, some d, sl1, r.1, t2 + r.1⟩
+      let nth := cfg.nth
+      let nd := nextDelay nth (s1.src.getD 0) s1.last
+      match nd.1 with
+      | none =>
+        -- no delays at all: throttling is not activated, and there is no 2nd sleep
+        ⟨{ s1 with src := some nd.2 }, shouldRun, .none_, none, sl1, 0, t2⟩
+      | some d =>
+        let u := t2 + d
+        -- 2nd sleep (should_run is True here)
+        let r := aioSleep (u - t2) i.wake2
+        ⟨⟨some nd.2, some d, if r.2 then none else some u⟩, shouldRun, .none_, some d, sl1, r.1, t2 + r.1⟩
   | .success =>
     if shouldRun then
       ⟨⟨none, none, none⟩, shouldRun, .none_, none, sl1, 0, t2⟩
